@@ -117,7 +117,8 @@ def generate(rng, prop='C08'):
         elif r < 0.65:
             op = {'op': 'write', 'd': gen_payload(rng, mode, enc)}
         elif r < 0.72:
-            op = {'op': 'writelines', 'd': [gen_payload(rng, mode, enc) for _ in range(rng.randint(0, 3))]}
+            op = {'op': 'writelines', 'd': [gen_payload(rng, mode, enc) for _ in range(rng.randint(0, 3))],
+                  'seq': rng.choice(['list', 'list', 'tuple', 'iter', 'gen'])}
         elif r < 0.84 and tr == 'pty' and not (scn['echo'] and enc in ('utf-16', 'utf-32', 'iso2022_jp')):
             k = rng.random()
             if k < 0.6:
@@ -401,7 +402,10 @@ def run(scn, prop=None):
                         V('C08.return', 'write returned %r' % (ret,), op=kx)
                 elif kind == 'writelines':
                     xs = [r.sconv(x, op.get('as')) for x in op['d']]
-                    child.writelines(xs)
+                    # any iterable of strings is accepted: a list, a tuple, or something that can be walked only once
+                    how_ = op.get('seq', 'list')
+                    child.writelines(xs if how_ == 'list' else tuple(xs) if how_ == 'tuple' else iter(xs) if how_ == 'iter'
+                                     else (x_ for x_ in xs))
                     for x in xs:
                         lv, bx = enc_native(x)
                         expected += bx
